@@ -4,6 +4,8 @@ import (
 	"bytes"
 	"context"
 	"fmt"
+	"io"
+	"os"
 	"sort"
 	"strings"
 	"testing/fstest"
@@ -67,6 +69,73 @@ type renderResult struct {
 	Timeout bool
 }
 
+// Every second call of renderPage / renderPageVue first renders the SAME page on the SAME engine with DECOY data — every string replaced,
+// every number given another Go type and value, every boolean flipped — and throws that output away. The property checks then look at the
+// second render: by C10 it is a function of its own inputs, so a decoy changes nothing on a tree where that holds, and a change that makes a
+// render depend on what the engine evaluated before (a cache keyed too coarsely, a template node edited in place, a program specialised on
+// the types it saw first) shows in whatever property's oracle looks at the output.
+var decoyCounter int
+
+func decoyOf(v any) any {
+	switch x := v.(type) {
+	case nil:
+		return "DECOY"
+	case string:
+		return "DECOY " + x + " YOCED"
+	case bool:
+		return !x
+	case int:
+		return float64(x) + 1.5
+	case int8:
+		return int(x) + 1
+	case int16:
+		return int(x) + 1
+	case int32:
+		return int64(x) + 1
+	case int64:
+		return int(x) + 1
+	case uint:
+		return int(x) + 1
+	case uint8:
+		return int(x) + 1
+	case uint16:
+		return int(x) + 1
+	case uint32:
+		return int(x) + 1
+	case uint64:
+		return float64(x) + 1
+	case float32:
+		return float64(x) + 0.25
+	case float64:
+		return int(x) + 1
+	case []any:
+		out := make([]any, len(x))
+		for i, e := range x {
+			out[i] = decoyOf(e)
+		}
+		return out
+	case map[string]any:
+		out := make(map[string]any, len(x))
+		for k, e := range x {
+			out[k] = decoyOf(e)
+		}
+		return out
+	}
+	return v // structs, typed slices and maps: as they are (same types, same values)
+}
+
+func decoyRender(render func(data any)) func(data any) {
+	return func(data any) {
+		decoyCounter++
+		if m, ok := data.(map[string]any); ok && decoyCounter%2 == 0 && os.Getenv("VERIF_NO_DECOY") == "" {
+			func() {
+				defer func() { recover() }()
+				render(decoyOf(m))
+			}()
+		}
+	}
+}
+
 func renderPage(files map[string]string, page string, data any, opts ...vuego.LoadOption) renderResult {
 	mfs := fstest.MapFS{}
 	for n, c := range files {
@@ -83,7 +152,50 @@ func renderPage(files map[string]string, page string, data any, opts ...vuego.Lo
 		}()
 		var buf bytes.Buffer
 		t := vuego.NewFS(mfs, opts...)
+		decoyRender(func(d any) { _ = t.Load(page).Fill(d).Render(context.Background(), io.Discard) })(data)
 		err := t.Load(page).Fill(data).Render(context.Background(), &buf)
+		res.Out = buf.String()
+		if err != nil {
+			res.Err = err.Error()
+		}
+	}()
+	select {
+	case r := <-done:
+		return r
+	case <-time.After(10 * time.Second):
+		return renderResult{Timeout: true}
+	}
+}
+
+// renderPageAfter renders the page with `first` and then with `data` on ONE engine (both entry points alternate by `viaVue`) and returns the
+// second result: what a render gives after the engine has seen the same templates with other values and other Go types
+func renderPageAfter(files map[string]string, page string, first, data any, viaVue bool, opts ...vuego.LoadOption) renderResult {
+	mfs := fstest.MapFS{}
+	for n, c := range files {
+		mfs[n] = &fstest.MapFile{Data: []byte(c), ModTime: time.Unix(1700000000, 0)}
+	}
+	done := make(chan renderResult, 1)
+	go func() {
+		var res renderResult
+		defer func() {
+			if e := recover(); e != nil {
+				res.Panic = fmt.Sprint(e)
+			}
+			done <- res
+		}()
+		t := vuego.NewFS(mfs, opts...)
+		run := func(d any, w io.Writer) error {
+			if viaVue {
+				return vuego.VerifVue(t).Render(w, page, d)
+			}
+			return t.Load(page).Fill(d).Render(context.Background(), w)
+		}
+		func() {
+			defer func() { recover() }()
+			_ = run(first, io.Discard)
+		}()
+		var buf bytes.Buffer
+		err := run(data, &buf)
 		res.Out = buf.String()
 		if err != nil {
 			res.Err = err.Error()
@@ -113,7 +225,9 @@ func renderPageVue(files map[string]string, page string, data any, opts ...vuego
 			done <- res
 		}()
 		var buf bytes.Buffer
-		err := vuego.VerifVue(vuego.NewFS(mfs, opts...)).Render(&buf, page, data)
+		vv := vuego.VerifVue(vuego.NewFS(mfs, opts...))
+		decoyRender(func(d any) { _ = vv.Render(io.Discard, page, d) })(data)
+		err := vv.Render(&buf, page, data)
 		res.Out = buf.String()
 		if err != nil {
 			res.Err = err.Error()
